@@ -47,10 +47,20 @@ def run(run):
     N = 1000000
     shapes = [(N,), (1000, 1000), (10, 10, 100, 100)]
     sig_pows = [1e-3, 1.0, 1e3]
-    snrs = [-20.0, 0.0, 10.0, 40.0] if not quick else [-20.0, 10.0, 40.0]
+    snrs = [-30.0, -20.0, -10.0, 0.0, 5.0, 10.0, 20.0, 30.0, 40.0] if not quick else [-20.0, 10.0, 40.0]
     ci = 0
 
-    def signal(cplx, power, shape):
+    def signal(cplx, power, shape, fam="gaussian"):
+        if fam == "constant_modulus":        # BPSK / QPSK-like: every sample has the same magnitude
+            if cplx:
+                x = torch.complex(torch.sign(torch.randn(shape)), torch.sign(torch.randn(shape))) * math.sqrt(power / 2)
+            else:
+                x = torch.sign(torch.randn(shape)) * math.sqrt(power)
+            return x
+        if fam == "sparse":                  # one sample in 16 carries the power
+            mask = (torch.rand(shape) < 1 / 16).float()
+            base = signal(cplx, power * 16, shape)
+            return base * mask
         if cplx:
             x = torch.complex(torch.randn(shape), torch.randn(shape)) * math.sqrt(power / 2)
         else:
@@ -64,11 +74,11 @@ def run(run):
         return p, int(round(abs(m) / math.sqrt(max(p, 1e-300)) * 1e6))
     chans = []
     for cplx in (False, True):
-        for P in (1e-3, 0.5, 40.0):
+        for P in ((1e-3, 0.5, 40.0) if quick else (1e-4, 1e-3, 0.5, 1.0, 40.0, 1e3)):
             chans.append(("AWGNChannel", "power", cplx, P, lambda P=P: AWGNChannel(avg_noise_power=P), "gaussian", None))
             chans.append(("LaplacianChannel", "power", cplx, P, lambda P=P: LaplacianChannel(avg_noise_power=P), "laplacian", None))
             chans.append(("NonlinearChannel", "power", cplx, P, lambda P=P: NonlinearChannel(torch.tanh, add_noise=True, avg_noise_power=P, complex_mode="cartesian"), "gaussian", "tanh"))
-        for sc in (0.05, 2.0):
+        for sc in ((0.05, 2.0) if quick else (0.05, 0.5, 2.0, 30.0)):
             chans.append(("LaplacianChannel", "scale", cplx, sc, lambda sc=sc: LaplacianChannel(scale=sc), "laplacian", None))
         for snr in snrs:
             chans.append(("AWGNChannel", "snr", cplx, snr, lambda snr=snr: AWGNChannel(snr_db=snr), "gaussian", None))
@@ -79,11 +89,19 @@ def run(run):
         pows = sig_pows if mode == "snr" else [1.0]
         if quick and mode == "snr":
             pows = [sig_pows[ci % 3], sig_pows[(ci + 1) % 3]]
+        variants = []
         for sp in pows:
             ci += 1
-            shape = shapes[ci % 3]
-            x = signal(cplx, sp, shape)
+            if quick:
+                variants.append((sp, shapes[ci % 3], "gaussian"))
+            else:
+                for si, shp in enumerate(shapes):
+                    variants.append((sp, shp, ("gaussian", "constant_modulus", "sparse")[(ci + si) % 3] if mode == "snr" else "gaussian"))
+        for (sp, shape, fam) in variants:
+            x = signal(cplx, sp, shape, fam)
             cfg = {"channel": comp, "mode": mode, "complex": cplx, "value": val, "signal_power": sp, "ndim": len(shape)}
+            if fam != "gaussian":
+                cfg["signal"] = fam
             try:
                 y = mk()(x)
             except Exception as ex:
